@@ -6,7 +6,7 @@ WT=$(mktemp -d /tmp/seedsuite-wt.XXXXXX)
 git -C /repo worktree add -q --detach $WT HEAD || exit 1
 export REPO_ROOT=$WT
 export VERIF_EVIDENCE_DIR=$(mktemp -d /tmp/seedsuite-ev.XXXXXX)
-trap 'git -C /repo worktree remove --force $WT; rm -rf "$VERIF_EVIDENCE_DIR" $WT' EXIT
+trap 'rm -rf "$VERIF_ROOT/.work/mod-$(echo "$WT" | md5sum | cut -c1-10)"; git -C /repo worktree remove --force $WT; rm -rf "$VERIF_EVIDENCE_DIR" $WT' EXIT
 miss=0
 for d in $VERIF_ROOT/seeded/${1:-*}/; do
   name=$(basename $d)
